@@ -858,11 +858,12 @@ func TestKex(t *testing.T) {
 
 	// ---- read the TLC output: preimage records first (they validate the encoder and define the field lists)
 	var plans, gex []*planCase
-	npre := 0
+	npre, nks := 0, 0
 	err := vutil.ReadNDJSON(vutil.Env("VERIF_CASES", ""), func(line []byte) error {
 		var probe struct {
-			Pre  string          `json:"pre"`
-			Plan json.RawMessage `json:"plan"`
+			Pre    string          `json:"pre"`
+			KShape string          `json:"kshape"`
+			Plan   json.RawMessage `json:"plan"`
 		}
 		if err := json.Unmarshal(line, &probe); err != nil {
 			return err
@@ -876,6 +877,17 @@ func TestKex(t *testing.T) {
 				return err
 			}
 			npre++
+			return nil
+		}
+		if probe.KShape != "" {
+			var c kShapeCase
+			if err := json.Unmarshal(line, &c); err != nil {
+				return err
+			}
+			if err := loadKShape(&c); err != nil {
+				return err
+			}
+			nks++
 			return nil
 		}
 		var pc planCase
@@ -893,9 +905,13 @@ func TestKex(t *testing.T) {
 		t.Fatalf("harness input: %v", err)
 	}
 	out.Extra["preimages_validated_against_tlc"] = npre
+	out.Extra["k_encodings_validated_against_tlc"] = nks
 	for _, m := range []string{"dh", "gex", "ecdh", "c25519", "mlkem"} {
 		if specs[m] == nil {
 			t.Fatalf("no field list for method %s in the TLC output", m)
+		}
+		if kencOf[m] == "" {
+			t.Fatalf("no K-shape records for method %s in the TLC output", m)
 		}
 	}
 	// every algorithm of the package must be one the specification knows
@@ -935,6 +951,9 @@ func TestKex(t *testing.T) {
 			}
 		}
 	}
+
+	// ---- forced shapes of K, every algorithm, both halves against the harness as an independent peer
+	d.forcedShapes(thorough)
 
 	// ---- attacker plans of the model
 	for _, pc := range plans {
